@@ -140,6 +140,7 @@ class Frame:
     gen: MColl | None = None
     loop_bases: list = field(default_factory=list)
     nonlocals: set = field(default_factory=set)
+    own_loops: list = field(default_factory=list)
     at_yield: Any = None  # body of the `with` statement that runs a @contextmanager generator (called at its `yield`)
 
 
@@ -865,16 +866,18 @@ class Evaluator:
         n = len(self.ctx)
         self.ctx.append(("for", var, snap, loopid))
         self.bind(target, var, fr)
-        self.run_iteration(fr, body, n)
+        self.run_iteration(fr, body, n, loopid)
 
-    def run_iteration(self, fr, body, n) -> None:
+    def run_iteration(self, fr, body, n, loopid=None) -> None:
         fr.loop_bases.append(len(self.ctx))
+        fr.own_loops.append(loopid)  # None: an iteration re-entered through the generators of a collection (another loop's binders)
         self.running.append(self.fresh())
         try:
             body()
         finally:
             self.running.pop()
             fr.loop_bases.pop()
+            fr.own_loops.pop()
             del self.ctx[n:]
 
     def iterate_item(self, item, target, fr, body, node) -> None:
@@ -1505,6 +1508,12 @@ class Evaluator:
                 c = self.new_coll(name)
                 self.add_item(c, a[0], splat=True)
                 return ("mcoll", c.cid)
+            if name == "sorted" and kwargs:
+                # the order: by which component, ascending or not ("key?" = by something this evaluator does not name)
+                pos = self.key_position(kwargs["key"]) if "key" in kwargs and kwargs["key"] != NONE else "self"
+                how = ("" if pos == "self" else f"key{pos if pos is not None else '?'}") + ("" if kwargs.get("reverse", FALSE) == FALSE else "rev")
+                if how:
+                    return ("wrap", name, self.snapshot(a[0]), how)
             return ("wrap", name, self.snapshot(a[0]))
         if name == "dict":
             c = self.new_coll("dict")
@@ -1586,6 +1595,30 @@ class Evaluator:
             return self.problem("super() outside a method", node)
         return ("opaque", f"builtin {name}", tuple(self.snapshot(x) for x in a))
 
+    def key_position(self, key):
+        """k when `key(x)` is `x[k]` (itemgetter(k), a lambda / function returning its argument's k-th component), "self" for the
+        identity, else None."""
+        key = self.reduce(key)
+        if key == NONE:
+            return "self"
+        if key[0] == "itemgetter" and len(key[1]) == 1 and _is_int(key[1][0]):
+            return key[1][0][1]
+        if key[0] in ("closure", "func", "partial", "bound"):
+            probe = ("var", self.fresh())
+            saved = self.save_state()
+            try:
+                r = self.call(key, [probe], {}, None)
+                hard = len(self.skipped) > len(saved["skipped"])
+            finally:
+                self.restore_state(saved)
+            if hard or not isinstance(r, tuple):
+                return None
+            if r == probe:
+                return "self"
+            if r[0] == "index" and r[1] == probe and _is_int(r[2]):
+                return r[2][1]
+        return None
+
     def filter_like(self, pred, iterable, negate: bool, node):
         m = self.new_coll("iter")
         fr = self.frames[-1]
@@ -1613,6 +1646,29 @@ class Evaluator:
             return ("mcoll", c.cid)
         if dotted in ("itertools.chain.from_iterable",) and len(a) == 1:
             return ("flatten", a[0])
+        if dotted == "itertools.starmap" and len(args) == 2 and not kwargs:
+            m = self.new_coll("iter")
+            fr = self.frames[-1]
+            tgt = ast.Name(id=f"__starmap{self.fresh()}", ctx=ast.Store())
+
+            def body():
+                x = fr.env.vars[tgt.id]
+                x = self.snapshot(x)
+                self.add_item(m, self.call(args[0], list(x[1]) if x[0] == "tuple" else [("starred", x)], {}, node))
+
+            self.iterate(args[1], tgt, fr, body, node)
+            fr.env.vars.pop(tgt.id, None)
+            return ("mcoll", m.cid)
+        if dotted == "itertools.permutations" and args and not kwargs and (len(args) == 1 or _is_int(args[1])):
+            return ("perm", a[0], args[1][1] if len(args) == 2 else None)
+        if dotted == "itertools.combinations" and len(args) == 2 and not kwargs and args[1] == ("const", 2):
+            return ("comb", a[0], 2)
+        if dotted == "itertools.product" and args and (not kwargs or (set(kwargs) == {"repeat"} and _is_int(kwargs["repeat"]) and len(args) == 1)):
+            seqs = tuple(a) * (kwargs["repeat"][1] if kwargs else 1)
+            return ("product", seqs)
+        if dotted == "itertools.groupby" and args and len(args) <= 2 and set(kwargs) <= {"key"}:
+            key = kwargs.get("key", args[1] if len(args) == 2 else NONE)
+            return ("groupby", a[0], self.key_position(key))
         if dotted == "itertools.filterfalse" and len(args) == 2 and not kwargs:
             return self.filter_like(args[0], args[1], True, node)
         if dotted == "contextlib.suppress" and not kwargs:
@@ -1623,6 +1679,11 @@ class Evaluator:
             return ("nullcontext", args[0] if args else NONE)
         if dotted == "functools.partial" and args:
             return ("partial", args[0], tuple(args[1:]), tuple(sorted(kwargs.items())))
+        if dotted == "operator.methodcaller" and args and self.reduce(args[0])[0] == "ite":
+            c = self.reduce(args[0])
+            x = self.call_ext(dotted, [c[2], *args[1:]], kwargs, node)
+            y = self.call_ext(dotted, [c[3], *args[1:]], kwargs, node)
+            return x if x == y else ("ite", c[1], x, y)
         if dotted == "operator.methodcaller" and args and args[0][0] == "const" and isinstance(args[0][1], str):
             return ("methodcaller", args[0][1], tuple(args[1:]), tuple(sorted(kwargs.items())))
         if dotted == "operator.attrgetter" and args and not kwargs and all(x[0] == "const" and isinstance(x[1], str) for x in args):
@@ -1750,6 +1811,8 @@ class Evaluator:
                 cond = c_and([cond, ("opaque-exit", self.fresh())])
                 if kind == "return":
                     self.problem("return inside a loop", node, soft=True)
+                    # the remaining elements of the loops of this function are not processed (like `break`)
+                    self.cut_loops.update(x for x in fr.own_loops if x is not None)
             if kind == "return":
                 fr.returns.append((cond, v))
             fr.exits.append((kind, cond, len(self.ctx)))
@@ -2135,13 +2198,13 @@ class Evaluator:
         nex_body = len(fr.exits)
         t_body = self.block(s.body, fr)
         self.trys.pop()
-        body_exits = list(fr.exits[nex_body:])
         body_env = dict(fr.env.vars)
         del self.ctx[n:]
         if s.orelse:
             self.ctx.append(("if", c_not(("raised", tid, types))))
             self.block(s.orelse, fr)
             del self.ctx[n:]
+        body_exits = list(fr.exits[nex_body:])  # continue / break / return in the body or the else branch
         for h in s.handlers:
             ht = ("BaseException",) if h.type is None else tuple(ast.unparse(x) for x in h.type.elts) if isinstance(h.type, ast.Tuple) else (ast.unparse(h.type),)
             self.ctx.append(("if", ("raised", tid, ht)))
